@@ -131,21 +131,27 @@ def manager_new(prog):
         tgt = strip(st[1])
         idx = strip(tgt[2][1]) if tgt[0] == "call" else strip(tgt[2])
         val = strip(st[2])
-        if "extract_leaf" in show(idx) and "value" in show(idx) and show(val).endswith(".0.0") and "next(" in show(val):
+        if ("extract_leaf" in show(idx) or " as Leaf)" in show(idx)) and "value" in show(idx) and show(val).endswith(".0.0") and "next(" in show(val):
             ok_store = True
             # the table written must be the one that becomes vtree_index
             base = strip(tgt[2][0]) if tgt[0] == "call" else strip(tgt[1])
             vi = fields.get("vtree_index")
             if vi is not None and vi[0] == "mu" and not (isinstance(base, tuple) and base[-1] == vi[2]):
                 errs.append("the label-indexed table written in the loop is not the one stored as vtree_index")
-        elif "next(" in show(val):
-            errs.append("the loop stores %s at %s, expected in-order index at [label of the leaf]" % (show(val)[:30], show(idx)[:40]))
-    if not ok_store:
-        errs.append("vtree_index[label(leaf)] = in-order index not found")
+        elif "next(" in show(val) and show(val).endswith(".0.0") and not any("leftmost" in (d.get("name") or "") for d in fn.debug if False):
+            # an enumeration index stored somewhere else than at [label of the leaf]
+            base_ = strip(tgt[2][0]) if tgt[0] == "call" else strip(tgt[1])
+            vi_ = fields.get("vtree_index")
+            if vi_ is not None and vi_[0] == "mu" and isinstance(base_, tuple) and base_[-1] == vi_[2]:
+                errs.append("the loop stores %s at %s, expected in-order index at [label of the leaf]" % (show(val)[:30], show(idx)[:40]))
+    if not ok_store and not errs:
+        errs.append("?vtree_index[label(leaf)] = in-order index not found")
     pushes = [cs for cs in te.calls if cs.callee.name == "push" and "next(" in show(cs.args[1])]
+    il = fields.get("index_lookup")
+    pushes = [cs for cs in pushes if il is None or il[0] != "mu" or (strip(cs.args[0])[0] == "mutref" and strip(cs.args[0])[1] == il[2])]
     if len(pushes) != 1 or not show(strip(pushes[0].args[1])).endswith(".0.1"):
-        errs.append("index_lookup is not filled with every node of the enumeration")
-    elif any(c for c, v, _, _ in te.facts_at(pushes[0].bb) if "is_leaf" in show(c)):
+        errs.append("?index_lookup is not filled with every node of the enumeration")
+    elif any(c for c, v, _, _ in te.facts_at(pushes[0].bb) if "is_leaf" in show(c) or (strip(c)[0] == "discr" and "next(" in show(c) and ".0.1" in show(c))):
         errs.append("index_lookup receives only some nodes (push is conditional)")
     out.append(inst("VX", "%s:index-loop" % fn.npath, VIOLATION if errs else OK, fn, None,
                     "; ".join(errs) if errs else "index_lookup[i] = i-th in-order node; vtree_index[label(leaf)] = its in-order index"))
